@@ -318,8 +318,8 @@ func decodeEIP1559SignaturePayload(ctx context.Context, rawTx ethtypes.HexBytes0
 		log.L(ctx).Errorf("Invalid EIP-1559 transaction data (%d RLP elements)", rlpList)
 		return nil, nil, i18n.NewError(ctx, signermsgs.MsgInvalidEIP1559Transaction, "EOF")
 	}
-	encodedChainID := rlpList[0].ToData().IntOrZero().Int64()
-	if encodedChainID != chainID {
+	encodedChainID := rlpList[0].ToData().IntOrZero()
+	if !encodedChainID.IsInt64() || encodedChainID.Int64() != chainID {
 		return nil, nil, i18n.NewError(ctx, signermsgs.MsgInvalidChainID, chainID, encodedChainID)
 	}
 	return rlpList, &Transaction{
